@@ -10,7 +10,10 @@ use crate::pomgen::*;
 #[derive(Clone, Debug, PartialEq)]
 pub struct RDone { pub coord: ACoord, pub scope: Option<u8>, pub optional: Option<bool> }
 #[derive(Clone, Debug)]
-pub struct REff { pub group: String, pub version: String, pub packaging: String, pub dm: Vec<RDone>, pub declared: Vec<ADep>, pub deps: Vec<RDone> }
+pub struct REff { pub group: String, pub version: String, pub packaging: String, pub dm: Vec<RDone>, pub declared: Vec<ADep>, pub deps: Vec<RDone>,
+	/// for the `parent_before_import` reading: the declared (non-import) managed entries along the parent chain, child
+	/// first, and the import entries along the chain (own ones first), still unexpanded
+	pub dm_declared: Vec<RDone>, pub dm_imports: Vec<(String, String, String)> }
 #[derive(Clone, Debug)]
 pub struct RNode { pub repo: usize, pub coord: ACoord, pub scope: u8, pub children: Vec<RNode> }
 #[derive(Clone, Debug, PartialEq)]
@@ -38,10 +41,18 @@ pub fn default_classifier(type_: &str) -> Option<&'static str> {
 	match type_ { "test-jar" => Some("tests"), "ejb-client" => Some("client"), "java-source" => Some("sources"), "javadoc" => Some("javadoc"), _ => None }
 }
 
-pub struct Ref<'u> { pub u: &'u Universe, memo: HashMap<(String, String, String), Result<(usize, REff), ()>>, pub depth_limit: usize }
+pub struct Ref<'u> { pub u: &'u Universe, memo: HashMap<(String, String, String), Result<(usize, REff), ()>>, pub depth_limit: usize,
+	/// How an imported BOM ranks against managed entries INHERITED from a parent.  The documentation
+	/// (Introduction to the Dependency Mechanism) says the importing POM looks as if the BOM's entries were written
+	/// in it, own entries win over imported ones, the first import wins, and a child's declaration wins over its
+	/// parent's; it does not say how an import ranks against the parent's entries.  `false`: the import is expanded in
+	/// place, inherited entries follow (what the crate does).  `true`: what Maven's model builder does — inheritance
+	/// is assembled first (import entries are inherited like any other managed entry), and the importer only adds
+	/// keys that are still unmanaged, so every declared entry of the whole parent chain beats every import.
+	pub parent_before_import: bool }
 
 impl<'u> Ref<'u> {
-	pub fn new(u: &'u Universe) -> Self { Ref { u, memo: HashMap::new(), depth_limit: 64 } }
+	pub fn new(u: &'u Universe) -> Self { Ref { u, memo: HashMap::new(), depth_limit: 64, parent_before_import: false } }
 
 	/// the first repository, in the given order, that has a document for the coordinate
 	pub fn lookup(&self, g: &str, a: &str, v: &str) -> Result<(usize, &'u APom), ()> {
@@ -88,21 +99,36 @@ impl<'u> Ref<'u> {
 		let version = pom.version.clone().or(parent.as_ref().map(|p| p.version.clone())).ok_or(())?;
 		let packaging = pom.packaging.clone().unwrap_or_else(|| "jar".to_string());
 		let mut dm = vec![];
+		let mut dm_declared = vec![];
+		let mut dm_imports = vec![];
 		for e in &pom.dm {
 			let ev = e.version.clone().ok_or(())?;
 			if e.scope == Some(IMPORT) {
-				let (_, te) = self.effective(&e.group, &e.artifact, &ev, depth + 1)?;
-				dm.extend(te.dm);
+				dm_imports.push((e.group.clone(), e.artifact.clone(), ev.clone()));
+				if !self.parent_before_import {
+					let (_, te) = self.effective(&e.group, &e.artifact, &ev, depth + 1)?;
+					dm.extend(te.dm);
+				}
 			} else {
 				let type_ = e.type_.clone().unwrap_or_else(|| "jar".to_string());
 				let classifier = e.classifier.clone().or_else(|| default_classifier(&type_).map(|x| x.to_string()));
-				dm.push(RDone { coord: ACoord { group: e.group.clone(), artifact: e.artifact.clone(), version: ev, classifier, type_ }, scope: e.scope, optional: e.optional });
+				let done = RDone { coord: ACoord { group: e.group.clone(), artifact: e.artifact.clone(), version: ev, classifier, type_ }, scope: e.scope, optional: e.optional };
+				dm_declared.push(done.clone());
+				if !self.parent_before_import { dm.push(done); }
 			}
 		}
 		let mut declared = pom.deps.clone();
-		if let Some(p) = &parent { dm.extend(p.dm.clone()); declared.extend(p.declared.clone()); }
+		if let Some(p) = &parent {
+			if !self.parent_before_import { dm.extend(p.dm.clone()); }
+			declared.extend(p.declared.clone());
+			dm_declared.extend(p.dm_declared.clone()); dm_imports.extend(p.dm_imports.clone());
+		}
+		if self.parent_before_import {
+			dm = dm_declared.clone();
+			for (g, a, v) in dm_imports.clone() { let (_, te) = self.effective(&g, &a, &v, depth + 1)?; dm.extend(te.dm); }
+		}
 		let deps = declared.iter().map(|d| Self::complete(&dm, d)).collect::<Result<Vec<_>, ()>>()?;
-		Ok((repo, REff { group, version, packaging, dm, declared, deps }))
+		Ok((repo, REff { group, version, packaging, dm, declared, deps, dm_declared, dm_imports }))
 	}
 
 	pub fn tree(&mut self, c: &ACoord, scope: u8, depth: usize, count: &mut usize, limit: usize) -> Result<RNode, ()> {
@@ -164,9 +190,10 @@ pub fn stats(forest: &[RNode]) -> Stats {
 }
 
 /// the whole documented resolution; `Err(())` when a needed POM is missing/unusable; `None` in `size` when too big
-pub fn resolve(u: &Universe, limit: usize) -> (Result<Vec<RFound>, ()>, usize) { let (a, b, _) = resolve_stats(u, limit); (a, b) }
-pub fn resolve_stats(u: &Universe, limit: usize) -> (Result<Vec<RFound>, ()>, usize, Stats) {
+pub fn resolve(u: &Universe, limit: usize) -> (Result<Vec<RFound>, ()>, usize) { let (a, b, _) = resolve_stats(u, limit, false); (a, b) }
+pub fn resolve_stats(u: &Universe, limit: usize, parent_before_import: bool) -> (Result<Vec<RFound>, ()>, usize, Stats) {
 	let mut r = Ref::new(u);
+	r.parent_before_import = parent_before_import;
 	let mut count = 0usize;
 	let mut forest = vec![];
 	for (c, s) in &u.roots {
